@@ -46,21 +46,28 @@ fn parse_render(text: &str) -> String {
 }
 
 fn run_case(line: &str) -> String {
+    // `REAL <mask> <timeout ms> <mode> | ops`: the recorder is built by build_recorder() (the real
+    // quanta clock, as in production) and A<ms> is a real sleep
+    let (real, line) = match line.strip_prefix("REAL ") { Some(r) => (true, r), None => (false, line) };
     let (head, ops) = line.split_once('|').unwrap();
     let mut hsx = head.split_whitespace();
     let mask = mask_of(hsx.next().unwrap().parse().unwrap());
-    let timeout = match hsx.next().unwrap() { "-" => None, t => Some(Duration::from_nanos(t.parse().unwrap())) };
+    let timeout = match hsx.next().unwrap() { "-" => None, t => Some(if real { Duration::from_millis(t.parse().unwrap()) } else { Duration::from_nanos(t.parse().unwrap()) }) };
     let mode: u64 = hsx.next().map(|m| m.parse().unwrap()).unwrap_or(0);
     let (clock, mock) = quanta::Clock::mock();
     let mut builder = PrometheusBuilder::new().idle_timeout(mask, timeout);
     if mode == 4 { builder = builder.add_global_label("env.x", "p"); }
-    let recorder = builder.verif_build_with_clock(clock);
+    let recorder = if real { builder.build_recorder() } else { builder.verif_build_with_clock(clock) };
     let handle = recorder.handle();
     let mut out: Vec<String> = Vec::new();
     for tok in ops.split_whitespace() {
         let (c, rest) = tok.split_at(1);
         match c {
-            "A" => { mock.increment(rest.parse::<u64>().unwrap()); out.push("a".into()); }
+            "A" => {
+                let d: u64 = rest.parse().unwrap();
+                if real { std::thread::sleep(Duration::from_millis(d)); } else { mock.increment(d); }
+                out.push("a".into());
+            }
             "R" => out.push(parse_render(&handle.render())),
             "U" => {
                 let (k, rest) = rest.split_at(1);
@@ -90,9 +97,14 @@ fn main() {
     let stdin = std::io::stdin();
     let stdout = std::io::stdout();
     let mut w = std::io::BufWriter::new(stdout.lock());
-    for line in stdin.lock().lines() {
-        let line = line.unwrap();
-        if line.trim().is_empty() { continue; }
+    let lines: Vec<String> = stdin.lock().lines().map(|l| l.unwrap()).filter(|l| !l.trim().is_empty()).collect();
+    if lines.iter().all(|l| l.starts_with("REAL ")) {
+        // real-clock histories sleep: run them side by side (each has its own recorder)
+        let hs: Vec<_> = lines.into_iter().map(|l| std::thread::spawn(move || run_case(&l))).collect();
+        for h in hs { writeln!(w, "{}", h.join().unwrap()).unwrap(); }
+        return;
+    }
+    for line in lines {
         writeln!(w, "{}", run_case(&line)).unwrap();
     }
 }
